@@ -33,7 +33,8 @@
       window op and its result, after the events it caused).
       An op that is not enabled (sender op without Sender, gate release without that gate, …) prints tag `x`.
 
-  stream `batcher_blocking`: the decision tables of the blocking entry points, see `runBlocking`.
+  stream `batcher_blocking`: the decision tables of the blocking entry points, see `runBlocking`. Send ops print
+      `<result>[,within-budget|,over-budget],t=<queue_full_truncated>,b=<queue_full_blocked>`.
 -/
 import EmitModel.Base.Sexp
 import EmitModel.Model.Batcher
@@ -424,8 +425,12 @@ def runBlocking (line : String) : String :=
       let path := blockingPath api ctx
       let rxn := match rx with | .live => "live" | .stalled => "stalled" | .gone => "gone" | .late => "late" | .refill => "refill" | .hangup => "hangup"
       let sig := s!"{pathName path},{op},rx={rxn}"
+      -- the counters after a send: truncations come from the prefill alone, blocked = the first attempt failed
+      -- (against a live receiver with a full queue that depends on thread scheduling: `b=?`)
+      let (mt, mb) := blockingSendCounters cfg rx prefill 999
+      let cnt := s!",t={mt},b=" ++ (if rx = .live ∧ prefill ≥ cap then "?" else toString mb)
       if (api = .async ∧ ctx ≠ .tokioCurrentThread) ∨ (rx = .hangup ∧ (api ≠ .async ∨ op ≠ "flush")) then "bad-op"
-      else if rx = .refill ∧ (op ≠ "send" ∨ prefill < cap ∨ api = .async ∨ timeout < 200 ∨ timeout > 5000) then "bad-op"
+      else if rx = .refill ∧ (op ≠ "send" ∨ prefill < cap ∨ timeout < 200 ∨ timeout > 5000) then "bad-op"
       else if pathPanics path ctx then s!"panic\t{sig}"
       else if rx = .refill then
         -- remaining-time accounting (C08.send_or_wait_within_budget): the last clock reading is within 1.4·T
@@ -438,7 +443,9 @@ def runBlocking (line : String) : String :=
         let within := match sendOrWaitLastReading timeout first obs with
           | some t => decide (t * 10 ≤ timeout * 14)
           | none => true
-        s!"{res},{if within then "within-budget" else "over-budget"}\t{sig}"
+        -- every wait round is asked for the REMAINING time (C09.send_or_wait_asks_remaining)
+        let asked := ".".intercalate ((sendOrWaitAsked timeout first obs).map fun p => toString p.2)
+        s!"{res},{if within then "within-budget" else "over-budget"}{cnt}\t{sig},asked={asked}"
       else if api = .async ∧ op = "flush" then s!"{asyncFlush cfg rx prefill timeout}\tasync,{op},rx={rxn}"
       else if op = "flush" then
         match blockingFlush cfg rx prefill timeout with
@@ -446,9 +453,9 @@ def runBlocking (line : String) : String :=
         | none => s!"blocked\t{sig}"
       else if op = "send" then
         match blockingSend cfg rx prefill timeout 999 with
-        | some .ok => s!"ok\t{sig}"
-        | some (.handedBack y) => s!"err({y})\t{sig}"
-        | some .errNoItem => s!"err(noitem)\t{sig}"
+        | some .ok => s!"ok{cnt}\t{sig}"
+        | some (.handedBack y) => s!"err({y}){cnt}\t{sig}"
+        | some .errNoItem => s!"err(noitem){cnt}\t{sig}"
         | none => s!"blocked\t{sig}"
       else "bad-op"
     | _, _, _, _, _, _ => "bad-op"
@@ -458,7 +465,7 @@ def runBlocking (line : String) : String :=
 def runBlockingC08 (line : String) : String :=
   match (runBlocking line).splitOn "\t" with
   | [o, sig] => (if o == "panic" then "panic" else if o == "bad-op" then "bad-op" else if o == "blocked" then "blocked"
-      else if (o.splitOn "-budget").length > 1 then o else "returned") ++ "\t" ++ sig
+      else if (o.splitOn "-budget").length > 1 then ",".intercalate ((o.splitOn ",").take 2) else "returned") ++ "\t" ++ sig
   | _ => runBlocking line
 
 /-- stream `batcher_mt` (thorough): an OS-scheduled soak on real threads, judged by the implementation-side oracle
